@@ -47,9 +47,13 @@ func (c *c17cfg) body() {
 		view.hosts = append(view.hosts, vhost{id: hostUUID(i), ip: ip, dc: "dc1", rack: "r1", tokens: []string{fmt.Sprint(i * 1000)}})
 	}
 	var sysnodes []*sysnode
+	settling := false // final phase: queries are simply answered
 	qhandler := func(n *vnode.Node, sc *vnode.ServerConn, rec *vnode.ReqRec) vnode.Reply {
 		if _, ok := rec.Req.Msg.(*frame.Query); !ok {
 			return vnode.Reply{Msg: frame.ResultVoid{}}
+		}
+		if settling {
+			return vnode.Reply{Msg: vnode.TextRows("t", "ok")}
 		}
 		switch c.fates[vs.Choose(len(c.fates), vs.CostF)] {
 		case "drop":
@@ -178,8 +182,18 @@ func (c *c17cfg) body() {
 		sig = append(sig, r.who+":"+gocql.VerifErrClass(r.err))
 	}
 	vs.WaitQuiescent()
+	// "a connection reported closed is removed from its pool and replaced": replacement is triggered by the
+	// connection's error callback or, if a fill was already running then, by the next Pick. Give every host
+	// one more (answered) query as that trigger, then let the fills finish.
+	if c.closers == 0 && !c.removeHost {
+		settling = true
+		dialing = false
+		for i := 0; i < 2*c.hosts; i++ {
+			sess.Query("QUERYX 'settle'").WithContext(context.Background()).Exec()
+		}
+		vs.WaitQuiescent()
+	}
 	// pool invariants at quiescence
-	_, _, fdev := vs.Deviations()
 	for _, p := range gocql.VerifPools(sess) {
 		if p.Conns > p.Size {
 			vs.Failf("c17:pool-over-capacity", "pool of %s holds %d connections, configured size %d", p.Addr, p.Conns, p.Size)
@@ -187,8 +201,8 @@ func (c *c17cfg) body() {
 		if p.ClosedConn > 0 && !p.PoolClosed {
 			vs.Failf("c17:closed-conn-left-in-pool", "pool of %s still holds %d closed connection(s) at quiescence", p.Addr, p.ClosedConn)
 		}
-		if c.closers == 0 && !c.removeHost && (fdev == 0 || !c.dialFault) && !p.PoolClosed && p.Conns != p.Size {
-			vs.Failf("c17:pool-not-refilled", "pool of %s has %d of %d connections at quiescence although every dial succeeds", p.Addr, p.Conns, p.Size)
+		if c.closers == 0 && !c.removeHost && !p.PoolClosed && p.Conns != p.Size {
+			vs.Failf("c17:pool-not-refilled", "pool of %s has %d of %d connections at quiescence, after a further query on every host and with every later dial succeeding", p.Addr, p.Conns, p.Size)
 		}
 	}
 	// a final Close (also the second/third Close in the closers scenarios) must return
